@@ -13,7 +13,10 @@ An op is a JSON-like list:
   ['replace_one', filter, replacement, upsert]
   ['delete_one'|'delete_many', filter]
   ['find', filter, projection|None, sort|None, skip, limit]
-  ['find_one', filter, projection|None]     ['find_rewind', filter, projection|None]
+  ['find_one', filter, projection|None]
+  ['find_rewind', filter, projection|None, script]     the cursor is kept; script = cursor actions
+       ['rewind'] | ['next'] | ['index', i] | ['clone'] | ['distinct', key]  (default [['rewind']])
+  ['cursor_again', k, action]               one more action on the k-th cursor still kept
   ['foau', filter, update, projection|None, after, upsert, sort|None]
   ['foar', filter, replacement, projection|None, after, upsert]
   ['foad', filter, projection|None, sort|None]
@@ -34,8 +37,9 @@ class C07Gen(hist.HistGen):
         hist.HistGen.__init__(self, rng, oids, ttl=False, indexes=True, embedded_ids=True)
         self.cw = dict(insert_one=10, insert_many=5, update_one=9, update_many=12, replace_one=5,
                        delete_one=2, delete_many=1, find=6, find_proj=12, find_one=4,
-                       find_rewind=2, foau=6, foar=3, foad=2, distinct=4, aggregate=7,
-                       create_index=1, edit_nested=8, follow_up=0)
+                       find_rewind=4, cursor_again=4, foau=6, foar=3, foad=2, distinct=4,
+                       aggregate=7, create_index=1, edit_nested=8, follow_up=0)
+        self.open_cursors = 0
         self.last_multi = None      # fields set by the last multi-document update
         self.stats = {}
 
@@ -241,6 +245,21 @@ class C07Gen(hist.HistGen):
             return None
         return [[self.r.choice(['_id', 'a', 'b', 'c.x']), self.r.choice([1, -1])]]
 
+    def cursor_action(self):
+        r = self.r
+        x = r.random()
+        if x < 0.4:
+            return ['rewind']
+        if x < 0.6:
+            return ['index', r.choice([0, 0, 1, 2])]
+        if x < 0.75:
+            return ['clone']
+        if x < 0.8:
+            return ['next']
+        key = self.apath('cont') if r.random() < 0.7 else r.choice(['a', 'b', 'c', '_id'])
+        key = '.'.join(c for c in key.split('.') if not c.isdigit()) or key
+        return ['distinct', key]
+
     # -- pipelines --------------------------------------------------------------------------
     def stage(self):
         r = self.r
@@ -332,9 +351,15 @@ class C07Gen(hist.HistGen):
                     self.sort(), r.choice([0, 0, 0, 1]), r.choice([0, 0, 0, 1, 2])]
         if k == 'find_one':
             return ['find_one', self.filt() if r.random() < 0.6 else {}, self.maybe_projection(0.6)]
+        if k == 'cursor_again' and not self.open_cursors:
+            k = 'find_rewind'
         if k == 'find_rewind':
-            return ['find_rewind', self.filt() if r.random() < 0.5 else {},
-                    self.maybe_projection(0.3)]
+            self.open_cursors += 1
+            return ['find_rewind', self.filt() if r.random() < 0.4 else {},
+                    self.maybe_projection(0.3),
+                    [self.cursor_action() for _ in range(r.choice([1, 1, 2, 3]))]]
+        if k == 'cursor_again':
+            return ['cursor_again', r.randrange(8), self.cursor_action()]
         if k == 'foau':
             u, _ = self.c_update()
             return ['foau', self.c_filt(), u, self.maybe_projection(0.5), r.random() < 0.5,
